@@ -553,3 +553,5 @@ def run(ctx):
     r01_11(ctx)
     from .c02 import r02_8
     r02_8(ctx, layers, rid="R01.12")
+    from .c02 import r02_9
+    r02_9(ctx, layers, rid="R01.13")
